@@ -20,9 +20,15 @@ def _log(owner, name, args):
     world.vt_c14_log.append((owner, name, list(args)))
 
 def _make(name):
-    k = name[0]
     def command(self, irc, msg, args):
         _log(self.name(), name, args)
+        _act(name[0], name, irc, msg, args)
+    command.__name__ = name
+    command.__doc__ = "<anything>\n\nSynthetic C14 command %s." % name
+    return command
+
+def _act(k, name, irc, msg, args):
+    if True:
         text = name + '(' + ', '.join(args) + ')'
         if k in 'rbvlh':
             irc.reply(text)
@@ -50,9 +56,6 @@ def _make(name):
             raise callbacks.ArgumentError
         elif k == 'q':
             raise callbacks.SilentError
-    command.__name__ = name
-    command.__doc__ = "<anything>\n\nSynthetic C14 command %s." % name
-    return command
 
 def _fill(cls, names):
     for n in names:
